@@ -17,7 +17,9 @@ EXPLANATION = (
     "indexed read. R1: the verifier's rng parameter can influence the outcome in the four verifiers that take a random "
     "linear combination (a combiner that ignores the rng is constant), and R15: at least one draw from that rng "
     "whose result reaches the outcome sits on a cycle of the control-flow graph, i.e. is re-drawn per query - a "
-    "combiner drawn once lets errors planted in two queries cancel. Equality of the batch decision with the "
+    "combiner drawn once lets errors planted in two queries cancel. R5s: every Error variant that can be constructed "
+    "under a scheme's `check` can be constructed under its `batch_check` (sibling agreement on refusals; most batch "
+    "verifiers re-implement the single check). Equality of the batch decision with the "
     "conjunction of single checks is a runtime statement and is not decided.")
 RULE = ("instances = batch anchors x {proof-vs-claims zip sites} + combining verifiers x {rng reaches outcome, "
         "a live draw sits in a loop}; floors: every batch verifier over a proof list has >= 1 such zip")
@@ -52,6 +54,19 @@ def run(rep, ctx, tier):
             rep.add("R4a", "%s:floor" % key, False,
                     "neither a zip of the proof list against the claims nor a positional read of it found in %s (floor 1): the rule would pass vacuously" % key,
                     a.body.span)
+    # R5s: whatever the single verifier can refuse, the batch verifier can refuse (sibling agreement; most batch
+    # verifiers re-implement the single check instead of calling it)
+    from ..rules import siblings as R5S
+    n_var = 0
+    for sk in sorted({k.split(".")[0] for k in anchors}):
+        single = anchors.get("%s.check" % sk)
+        batch = anchors.get("%s.batch_check" % sk) or anchors.get("%s.batch_check(default)" % sk)
+        if single is None or batch is None:
+            continue
+        n_var += R5S.run_chain(rep, ctx, sk, [("check", single.body, single.ctx_adt), ("batch_check", batch.body, batch.ctx_adt)], "R5s")
+    rep.count("R5s variants compared", n_var)
+    if n_var < 8:
+        rep.add("R5s", "floor", False, "only %d refusal variants found under the single verifiers (counted 15; fail closed)" % n_var, None)
     for key in COMBINING:
         a = anchors.get(key)
         if a is None:
